@@ -261,12 +261,14 @@ pub fn generate(rng: &mut Rng, holder: usize, palette: &Palette) -> Content {
         4,  // 18 several independent diagnostics / observations in one file (order matters)
         4,  // 19 three imports
         4,  // 20 a literal splice (text block + @[literal])
+        6,  // 21 a tuple of 2-4 independent diagnostic sites drawn from every phase (order of reporting)
     ];
     if palette.allow_exec && !is_signature_slot {
-        weights.push(8); // 21 executable with literal code
-        weights.push(8); // 22 executable with imported code
-        weights.push(3); // 23 executable with a missing match arm
-        weights.push(5); // 24 executable whose function parameter is annotated by an import
+        weights.push(8); // 22 executable with literal code
+        weights.push(8); // 23 executable with imported code
+        weights.push(3); // 24 executable with a missing match arm
+        weights.push(5); // 25 executable whose function parameter is annotated by an import
+        weights.push(6); // 26 executable block with 2-4 independent faulty definitions
     }
     match rng.weighted(&weights) {
         | 0 => Content::plain(&format!("int{literal}"), &literal.to_string(), Class::Closed),
@@ -391,9 +393,11 @@ pub fn generate(rng: &mut Rng, holder: usize, palette: &Palette) -> Content {
             &format!("--| Line one {literal}\n--| Line two\n@[literal] _"),
             Class::Closed,
         ),
-        | 21 => executable(&format!("exec{literal}"), &literal.to_string(), vec![], false),
-        | 22 => executable("exec-import", "@[import({0})] _", vec![import_of(rng, holder, palette)], false),
-        | 23 => executable(&format!("exec-missing-arm{literal}"), &literal.to_string(), vec![], true),
+        | 21 => mixed_sites(rng),
+        | 22 => executable(&format!("exec{literal}"), &literal.to_string(), vec![], false),
+        | 23 => executable("exec-import", "@[import({0})] _", vec![import_of(rng, holder, palette)], false),
+        | 24 => executable(&format!("exec-missing-arm{literal}"), &literal.to_string(), vec![], true),
+        | 26 => faulty_block(rng),
         | _ => Content {
             name: "exec-ann-import".into(),
             template: format!(
@@ -403,6 +407,92 @@ pub fn generate(rng: &mut Rng, holder: usize, palette: &Palette) -> Content {
             class: Class::Executable,
         },
     }
+}
+
+/// One independent site that produces a diagnostic or an observation, numbered so that two
+/// sites of one family differ in their text.
+fn site(family: usize, n: usize) -> String {
+    match family {
+        // name resolution
+        | 0 => format!("nope{n}"),
+        | 1 => format!("{{ ret nope{n} }}"),
+        | 2 => format!("(let x{n} = {n} that x{n})"),
+        // directives
+        | 3 => format!("@[intrinsic(i64)] {n}"),
+        | 4 => format!("({n} : @[intrinsic(nope{n})] _)"),
+        | 5 => "@[import()] _".to_string(),
+        // desugaring
+        | 6 => format!("@[monadic({n})] {n}"),
+        // type checking
+        | 7 => format!("(\"m{n}\" : @[intrinsic(i64)] _)"),
+        | 8 => format!("(9999999999999999999{n} : @[intrinsic(i64)] _)"),
+        | 9 => format!("({n} {n})"),
+        | 10 => format!("(ret {n})"),
+        | 11 => format!("+Mix{n}()"),
+        | 12 => format!("{{ fn p{n} q{n} => ret () }}"),
+        | 13 => "_".to_string(),
+        | 14 => "(_ : @[intrinsic(i64)] _)".to_string(),
+        | 15 => format!("{{ fn .mix{n} => ret {n} }}"),
+        // observations and plain values
+        | 16 => format!("@[debug] {n}"),
+        | _ => format!("{n}"),
+    }
+}
+
+const SITE_FAMILIES: usize = 18;
+
+/// One faulty (or merely unused) contribution to a `begin` block.
+fn faulty_definition(family: usize, n: usize) -> String {
+    match family {
+        | 0 => format!("  let dup{n} = {n} that\n  let dup{n} = {n}{n} that\n"),
+        | 1 => format!("  def bad{n} : Int64 = nope{n} that\n"),
+        | 2 => format!("  def ty{n} : Int64 = \"t{n}\" that\n"),
+        | 3 => format!("  def hole{n} : Int64 = _ that\n"),
+        | 4 => format!("  def ! fun{n} (x{n}) : Ret Int64 = ret {n} that\n"),
+        | 5 => format!("  def Data{n} : VType = data | +Ctor{n} : Nope{n} end that\n"),
+        | 6 => format!("  def kind{n} : Int64 Int64 = {n} that\n"),
+        | 7 => format!("  param (p{n} : q{n}) that\n  param (q{n} : p{n}) that\n"),
+        | 8 => format!("  def dbg{n} : Int64 = @[debug] {n} that\n"),
+        | _ => format!("  def fine{n} : Int64 = {n} that\n"),
+    }
+}
+
+const DEFINITION_FAMILIES: usize = 10;
+
+/// An executable block with 2-4 independent faulty definitions; half of the time one family.
+fn faulty_block(rng: &mut Rng) -> Content {
+    let count = rng.range(2, 4);
+    let same = rng.chance(1, 2);
+    let first = rng.below(DEFINITION_FAMILIES);
+    let families: Vec<usize> =
+        (0..count).map(|i| if same || i == 0 { first } else { rng.below(DEFINITION_FAMILIES) }).collect();
+    let body: String = families.iter().enumerate().map(|(i, f)| faulty_definition(*f, i + 1)).collect();
+    let name = format!("exec-defs{}", families.iter().map(|f| format!("-{f}")).collect::<String>());
+    Content {
+        name,
+        template: format!(
+            "begin\n  param ((/core; /representations; /system) : @(import(\"{BUILTIN}\"))) that\n  let (/VType; /Thk; /Ret; /Unit) = core that\n  let (/Scalar = Int64) = representations/i64 that\n  let (/stdio; /process) = system that\n  let code : Int64 = 3 that\n{body}  ! (stdio/write_line) \"defs\" {{ ! (process/exit) code }}\nend\n"
+        ),
+        imports: vec![],
+        class: Class::Rejected,
+    }
+}
+
+/// A right-nested tuple of 2-4 sites; half of the time all from one family.
+fn mixed_sites(rng: &mut Rng) -> Content {
+    let count = rng.range(2, 4);
+    let same = rng.chance(1, 2);
+    let first = rng.below(SITE_FAMILIES);
+    let families: Vec<usize> =
+        (0..count).map(|i| if same || i == 0 { first } else { rng.below(SITE_FAMILIES) }).collect();
+    let mut text = site(families[count - 1], count);
+    for index in (0..count - 1).rev() {
+        text = format!("({}, {})", site(families[index], index + 1), text);
+    }
+    let name = format!("mix{}", families.iter().map(|f| format!("-{f}")).collect::<String>());
+    // a malformed directive stops the loader; everything else is seen after loading
+    let class = if families.iter().any(|f| matches!(f, 3 | 4 | 5)) { Class::DirectiveError } else { Class::Rejected };
+    Content::plain(&name, &text, class)
 }
 
 fn executable(name: &str, code: &str, imports: Vec<ImportRef>, missing_arm: bool) -> Content {
